@@ -3,11 +3,13 @@
 D1 step enumeration, D2 merge precedence, D3 the three generated variants agree and each has the
 documented form, D4 publication of <var>_values, D5 YAML conversion table, D6 materialisation
 argument provenance.  Numerical content of ranges is not decided.
+
+Rules are written as structural patterns with metavariables (sa/pat.py): locals are identified by
+the role their definition plays, never by name.
 """
 from __future__ import annotations
 
 import ast
-import copy
 from typing import Dict, List, Optional, Set, Tuple
 
 from ..cfg import CFG, returns_only_through
@@ -27,6 +29,7 @@ from ..engine import (
     stmt_of,
     walk_no_nested,
 )
+from ..pat import find, find1, match, name_of
 from ..report import Report
 
 SWEEP = "semantiva/data_processors/parametric_sweep_factory.py"
@@ -39,14 +42,33 @@ def _u(e: Optional[ast.AST]) -> str:
     return ast.unparse(e) if e is not None else ""
 
 
-def _unify(node: ast.AST) -> str:
-    """Position-free dump with the receiver (cls/self) and result-list names unified."""
+def _local_map(fn: ast.AST) -> Dict[str, str]:
+    """Locals of *fn* (stored names, not parameters) numbered by first store: rename-insensitive comparison."""
+    params = {a.arg for f in ast.walk(fn) if isinstance(f, FuncNode + (ast.Lambda,)) for a in f.args.args + f.args.kwonlyargs}
+    out: Dict[str, str] = {}
+    stores = [n for n in ast.walk(fn) if isinstance(n, ast.Name) and isinstance(n.ctx, ast.Store)]
+    stores.sort(key=lambda n: (n.lineno, n.col_offset))
+    for n in stores:
+        if n.id not in params and n.id not in out:
+            out[n.id] = f"v{len(out)}"
+    return out
+
+
+def _unify(node: Optional[ast.AST], fn: ast.AST) -> str:
+    """Position-free dump with the receiver (cls/self) unified and the function's locals numbered by
+    first occurrence inside this statement (so the comparison is insensitive to local names)."""
+    if node is None:
+        return ""
     n = ast.parse(ast.unparse(node)).body[0] if isinstance(node, ast.stmt) else ast.parse(ast.unparse(node), mode="eval").body
+    locals_ = set(_local_map(fn))
+    order: Dict[str, str] = {}
 
     class T(ast.NodeTransformer):
         def visit_Name(self, x):
             if x.id in ("cls", "self"):
                 x.id = "S"
+            elif x.id in locals_:
+                x.id = order.setdefault(x.id, f"v{len(order)}")
             return x
 
     T().visit(n)
@@ -64,6 +86,14 @@ def variant_bodies(repo: Repo) -> List[Tuple[str, ast.FunctionDef]]:
     return out
 
 
+def _defs(fn: ast.AST, e: Optional[ast.AST]) -> List[ast.AST]:
+    """The expression itself, or the right-hand sides assigned to it when it is a local name."""
+    if isinstance(e, ast.Name):
+        v = assigned_value(fn, e.id)
+        return v or [e]
+    return [e] if e is not None else []
+
+
 def run(repo: Repo, R: Report) -> None:
     R.assume(
         "itertools.product varies the rightmost sequence fastest; numpy.linspace/logspace return the documented values for their arguments",
@@ -74,47 +104,86 @@ def run(repo: Repo, R: Report) -> None:
     # ------------------------------------------------------------------ D1
     r_it = R.rule("C03-D1-step-enumeration", "combinatorial: product over the sequences taken in plain sorted variable-name order, each step dict(zip(names, combo)); by_position: unequal lengths rejected unless broadcast, broadcast cycles seq[i % len(seq)] up to the longest, steps are positions 0..n-1", 7)
     it = repo.func(SWEEP, "_iterate_sweep")
-    vn = assigned_value(it, "var_names")
-    ok = len(vn) == 1 and isinstance(vn[0], ast.Call) and call_attr(vn[0]) == "sorted" and not vn[0].keywords and len(vn[0].args) == 1 and ast.unparse(vn[0].args[0]) in ("sequences.keys()", "sequences")
-    R.check(ok, r_it, SWEEP, "_iterate_sweep", "var_names = sorted(sequences.keys())", "variable names are not taken in plain sorted order (custom key / mapping order): the element sequence is permuted", it.lineno)
-    vs = assigned_value(it, "var_seqs")
-    ok = len(vs) == 1 and isinstance(vs[0], ast.ListComp) and dotted_name(vs[0].generators[0].iter) == "var_names" and not vs[0].generators[0].ifs and ast.unparse(vs[0].elt) == f"sequences[{vs[0].generators[0].target.id}]"
-    R.check(ok, r_it, SWEEP, "_iterate_sweep", "var_seqs = [sequences[v] for v in var_names]", "sequences are not aligned with the sorted names", it.lineno)
+    seqs = it.args.args[0].arg
+    bc = next((a.arg for a in it.args.kwonlyargs if a.arg == "broadcast"), "broadcast")
     prod = [c for c in calls_in(it) if call_name(c) in ("itertools.product", "product")]
-    ok = len(prod) == 1 and len(prod[0].args) == 1 and isinstance(prod[0].args[0], ast.Starred) and dotted_name(prod[0].args[0].value) == "var_seqs"
-    R.check(ok, r_it, SWEEP, "_iterate_sweep", "itertools.product(*var_seqs)", "combinatorial steps are not the Cartesian product of the sorted sequences", it.lineno)
-    ys = [n for n in ast.walk(it) if isinstance(n, ast.Yield)]
-    ok = any(isinstance(y.value, ast.Call) and call_attr(y.value) == "dict" and isinstance(y.value.args[0], ast.Call) and call_attr(y.value.args[0]) == "zip" and dotted_name(y.value.args[0].args[0]) == "var_names" for y in ys)
-    R.check(ok, r_it, SWEEP, "_iterate_sweep", "yield dict(zip(var_names, combo))", "a combinatorial step does not pair sorted names with the product tuple", it.lineno)
+    ok_sorted = ok_align = ok_prod = ok_zip = False
+    names_src = None
+    if len(prod) == 1 and len(prod[0].args) == 1 and isinstance(prod[0].args[0], ast.Starred):
+        ok_prod = True
+        for sv in _defs(it, prod[0].args[0].value):
+            m = match(f"[{seqs}[_v_] for _v_ in _N_]", sv)
+            if m:
+                ok_align = True
+                names_src = m["_N_"]
+        for nv in _defs(it, names_src):
+            if match(f"sorted({seqs}.keys())", nv) or match(f"sorted({seqs})", nv):
+                ok_sorted = True
+        loop = next((a for a in ancestors(prod[0]) if isinstance(a, ast.For)), None)
+        if loop is not None and names_src is not None:
+            for y in [n for n in ast.walk(loop) if isinstance(n, ast.Yield)]:
+                m = match("dict(zip(_N_, _C_))", y.value, {"_N_": names_src})
+                if m and _u(m["_C_"]) == _u(loop.target):
+                    ok_zip = True
+    R.check(ok_sorted, r_it, SWEEP, "_iterate_sweep", "names = sorted(sequences.keys())", "variable names are not taken in plain sorted order (custom key / mapping order): the element sequence is permuted", it.lineno)
+    R.check(ok_align, r_it, SWEEP, "_iterate_sweep", "seqs = [sequences[v] for v in names]", "sequences are not aligned with the sorted names", it.lineno)
+    R.check(ok_prod, r_it, SWEEP, "_iterate_sweep", "itertools.product(*seqs)", "combinatorial steps are not the Cartesian product of the sorted sequences", it.lineno)
+    R.check(ok_zip, r_it, SWEEP, "_iterate_sweep", "yield dict(zip(names, combo))", "a combinatorial step does not pair sorted names with the product tuple", it.lineno)
+    lens = find1(it, f"_L_ = [len(_s_) for _s_ in {seqs}.values()]")
+    if lens is None:
+        raise AnalysisError("_iterate_sweep: list of sequence lengths not found")
+    L = name_of(lens[1], "_L_")
     g = CFG(it, may_raise=lambda p: set())
 
     def eq_len(e: ast.AST) -> Optional[bool]:
-        if isinstance(e, ast.Compare) and len(e.ops) == 1 and ast.unparse(e.left) == "len(set(seq_lengths))" and isinstance(e.comparators[0], ast.Constant) and e.comparators[0].value == 1:
-            if isinstance(e.ops[0], ast.NotEq):
-                return False
-            if isinstance(e.ops[0], ast.Eq):
-                return True
-        if dotted_name(e) == "broadcast":
-            return True  # broadcast path is the documented alternative
+        if match(f"len(set({L})) != 1", e) or match(f"len(set({L})) > 1", e):
+            return False
+        if match(f"len(set({L})) == 1", e):
+            return True
+        if dotted_name(e) == bc:
+            return True  # the broadcast path is the documented alternative
         return None
 
     pos_yields = [n.id for n in g.nodes if n.ast is not None and n.kind == "stmt" and any(isinstance(x, ast.Yield) and isinstance(x.value, ast.DictComp) for x in ast.walk(n.ast))]
     holds, path, guards = returns_only_through(g, eq_len, targets=pos_yields)
     R.check(holds and guards > 0 and bool(pos_yields), r_it, SWEEP, "_iterate_sweep", "by_position yields only after broadcast or the equal-length test", "positions are aligned although lengths differ and broadcast is off", it.lineno, path)
     mism = [n for n in ast.walk(it) if isinstance(n, ast.If) and eq_len(n.test) is False]
-    ok = bool(mism) and isinstance(mism[0].body[-1], ast.Raise) and "ValueError" in ast.unparse(mism[0].body[-1])
+    ok = bool(mism) and isinstance(mism[0].body[-1], ast.Raise) and "ValueError" in _u(mism[0].body[-1])
     R.check(ok, r_it, SWEEP, "_iterate_sweep", "unequal lengths raise ValueError", "unequal lengths are not rejected with ValueError", it.lineno)
-    src = ast.unparse(it)
-    ok = "max_len = max(seq_lengths)" in src and "seq[i % len(seq)] for i in range(max_len)" in src and "step_count = max_len" in src
+    mx = find1(it, f"_M_ = max({L})")
+    ok = False
+    if mx is not None:
+        M = name_of(mx[1], "_M_")
+        cyc = find(it, f"[_q_[_i_ % len(_q_)] for _i_ in range({M})]")
+        cnt = find(it, f"_K_ = {M}")
+        ok = bool(cyc) and bool(cnt)
     R.check(ok, r_it, SWEEP, "_iterate_sweep", "broadcast: seq[i % len(seq)] for i in range(max(len))", "broadcast does not cycle shorter sequences up to the longest one", it.lineno)
-    ok = any(isinstance(n, ast.For) and ast.unparse(n.iter) == "range(step_count)" and any(isinstance(x, ast.Yield) and isinstance(x.value, ast.DictComp) and ast.unparse(x.value.value) == f"sequences[{x.value.generators[0].target.id}][{n.target.id}]" for x in ast.walk(n)) for n in ast.walk(it))
+    ok = False
+    for lp in [n for n in ast.walk(it) if isinstance(n, ast.For)]:
+        m = match("range(_K_)", lp.iter)
+        if m and isinstance(lp.target, ast.Name):
+            for y in [x for x in ast.walk(lp) if isinstance(x, ast.Yield)]:
+                if match(f"{{_v_: _Q_[_v_][{lp.target.id}] for _v_ in _Q_}}", y.value):
+                    kdefs = _defs(it, m["_K_"])
+                    ok = any(match(f"{L}[0]", d) for d in kdefs) or any(isinstance(d, ast.Name) for d in kdefs)
     R.check(ok, r_it, SWEEP, "_iterate_sweep", "for i in range(step_count): yield {var: sequences[var][i]}", "by_position steps are not the aligned positions in order", it.lineno)
 
     # ------------------------------------------------------------------ D2
     r_m = R.rule("C03-D2-merge-precedence", "call parameters start from the provided (node/default) values and are then overwritten by the expression outputs", 1)
     mg = repo.func(SWEEP, "_merge_call_parameters")
-    body = [s for s in mg.body if not (isinstance(s, ast.Expr) and isinstance(s.value, ast.Constant))]
-    ok = len(body) == 3 and ast.unparse(body[0]) == "merged = dict(base_kwargs)" and ast.unparse(body[1]) == "merged.update(expression_outputs)" and ast.unparse(body[2]) == "return merged"
+    kw = [a.arg for a in mg.args.kwonlyargs] or [a.arg for a in mg.args.args]
+    base_p = next((a for a in kw if "base" in a), kw[0] if kw else "base_kwargs")
+    expr_p = next((a for a in kw if "expr" in a), kw[-1] if kw else "expression_outputs")
+    ok = False
+    m1 = find1(mg, f"_M_ = dict({base_p})") or find1(mg, f"_M_ = {base_p}.copy()") or find1(mg, f"_M_ = {{**{base_p}}}")
+    if m1 is not None:
+        M = name_of(m1[1], "_M_")
+        up = find1(mg, f"{M}.update({expr_p})")
+        rets = [n for n in walk_no_nested(mg) if isinstance(n, ast.Return)]
+        ok = up is not None and up[0].lineno > m1[0].lineno and len(rets) == 1 and dotted_name(rets[0].value) == M and not find(mg, f"{M}.update({base_p})")
+    else:
+        rets = [n for n in walk_no_nested(mg) if isinstance(n, ast.Return)]
+        ok = len(rets) == 1 and (match(f"{{**{base_p}, **{expr_p}}}", rets[0].value) is not None or match(f"{base_p} | {expr_p}", rets[0].value) is not None)
     R.check(ok, r_m, SWEEP, "_merge_call_parameters", "merged = dict(base_kwargs); merged.update(expression_outputs)", "computed-by-expression values no longer take precedence over provided ones", mg.lineno)
 
     # ------------------------------------------------------------------ D3
@@ -123,68 +192,69 @@ def run(repo: Repo, R: Report) -> None:
     forms: Dict[str, Dict[str, str]] = {}
     for qn, f in variants:
         d: Dict[str, str] = {}
-        recv = "cls" if f.name == "_get_data" else "self"
+        S = "cls" if f.name == "_get_data" else "self"
+        kwname = f.args.kwarg.arg if f.args.kwarg else "kwargs"
         loop = next((n for n in walk_no_nested(f) if isinstance(n, ast.For) and isinstance(n.iter, ast.Call) and call_attr(n.iter) == "_iterate_sweep"), None)
         if loop is None:
             raise AnalysisError(f"{qn}: sweep loop not found")
-        # absolute forms
-        mat = next((n for n in walk_no_nested(f) if isinstance(n, ast.Assign) and isinstance(n.value, ast.Call) and call_attr(n.value) == "_materialize_sequences"), None)
-        ok = mat is not None and dotted_name(kwarg(mat.value, "vars")) == f"{recv}._vars" and dotted_name(kwarg(mat.value, "params")) == "kwargs"
-        R.check(ok, r_v, SWEEP, qn, "_materialize_sequences(vars=S._vars, params=kwargs)", "sequences are not materialised from the class' variables and the call's parameters", f.lineno)
-        d["materialise"] = _unify(mat) if mat is not None else ""
-        pops = [n for n in walk_no_nested(f) if isinstance(n, ast.For) and dotted_name(n.iter) == f"{recv}._from_context_keys" and any(call_attr(c) == "pop" for c in calls_in(n))]
-        R.check(len(pops) == 1 and mat is not None and pops[0].lineno > mat.lineno, r_v, SWEEP, qn, "from-context keys are removed from kwargs after materialisation", "from-context sequences leak into the element's parameters (or are removed before being read)", f.lineno)
-        d["pop"] = _unify(pops[0]) if pops else ""
-        bk = next((n for n in walk_no_nested(f) if isinstance(n, ast.Assign) and dotted_name(n.targets[0]) == "base_kwargs"), None)
-        ok = bk is not None and isinstance(bk.value, ast.DictComp)
-        if ok:
-            dc = bk.value
-            gen = dc.generators[0]
-            nm = gen.target.id
-            ok = dotted_name(gen.iter) == "base_kwargs_filter" and len(gen.ifs) == 1 and ast.unparse(gen.ifs[0]) == f"{nm} in kwargs" and ast.unparse(dc.key) == nm and ast.unparse(dc.value) == f"kwargs[{nm}]"
-        R.check(ok, r_v, SWEEP, qn, "base_kwargs = {n: kwargs[n] for n in base_kwargs_filter if n in kwargs}", "provided parameters are selected by value instead of by presence (an explicit None / falsy node parameter is dropped and the element's default is used)", bk.lineno if bk is not None else f.lineno)
-        d["base_kwargs"] = _unify(bk) if bk is not None else ""
-        itc = loop.iter
-        ok = dotted_name(itc.args[0]) == "sequences" and dotted_name(kwarg(itc, "mode")) == f"{recv}._mode" and dotted_name(kwarg(itc, "broadcast")) == f"{recv}._broadcast"
+        mat = find1(f, f"(_SEQ_, _CR_) = _materialize_sequences(vars={S}._vars, params={kwname})")
+        R.check(mat is not None, r_v, SWEEP, qn, "_materialize_sequences(vars=S._vars, params=kwargs)", "sequences are not materialised from the class' variables and the call's parameters", f.lineno)
+        SEQ = name_of(mat[1], "_SEQ_") if mat else "__missing__"
+        d["materialise"] = _unify(mat[0] if mat else None, f)
+        pops = [lp for lp, _e in find(f, f"for _k_ in {S}._from_context_keys:\n    {kwname}.pop(_k_, None)")]
+        R.check(len(pops) == 1 and mat is not None and pops[0].lineno > mat[0].lineno, r_v, SWEEP, qn, "from-context keys are removed from kwargs after materialisation", "from-context sequences leak into the element's parameters (or are removed before being read)", f.lineno)
+        d["pop"] = _unify(pops[0] if pops else None, f)
+        bk = find1(f, f"_B_ = {{_n_: {kwname}[_n_] for _n_ in _BF_ if _n_ in {kwname}}}")
+        bk_any = find1(f, f"_B_ = {{_n_: {kwname}[_n_] for _n_ in _BF_ if _ANY_}}")
+        bf = name_of((bk or bk_any)[1], "_BF_") if (bk or bk_any) else None
+        create_fn = repo.func(SWEEP, CREATE)
+        bf_defs = [v for v in assigned_value(create_fn, bf)] if bf else []
+        if bk is not None and not (len(bf_defs) == 1 and isinstance(bf_defs[0], ast.BinOp) and isinstance(bf_defs[0].op, ast.BitOr)):
+            bk = None  # the filter set is not the factory's (required | optional) external names
+        R.check(bk is not None, r_v, SWEEP, qn, "base_kwargs = {n: kwargs[n] for n in base_kwargs_filter if n in kwargs}", "provided parameters are selected by value instead of by presence (an explicit None / falsy node parameter is dropped and the element's default is used)" if bk_any else "provided parameters are not selected from the call's kwargs by presence", (bk_any or bk or (f, {}))[0].lineno)
+        B = name_of((bk or bk_any)[1], "_B_") if (bk or bk_any) else "__missing__"
+        d["base_kwargs"] = _unify((bk or bk_any)[0] if (bk or bk_any) else None, f)
+        ok = match(f"_iterate_sweep({SEQ}, mode={S}._mode, broadcast={S}._broadcast)", loop.iter) is not None
         R.check(ok, r_v, SWEEP, qn, "_iterate_sweep(sequences, mode=S._mode, broadcast=S._broadcast)", "a variant iterates with a different mode / broadcast than the sweep declares", loop.lineno)
-        d["iterate"] = _unify(itc)
-        step = loop.target.id if isinstance(loop.target, ast.Name) else None
-        eo = next((n for n in loop.body if isinstance(n, ast.Assign) and isinstance(n.value, ast.DictComp) and ".items()" in ast.unparse(n.value.generators[0].iter)), None)
-        ok = eo is not None and f"{recv}._compiled_exprs.items()" == ast.unparse(eo.value.generators[0].iter) and not eo.value.generators[0].ifs and isinstance(eo.value.value, ast.Call) and [k.arg for k in eo.value.value.keywords] == [None] and dotted_name(eo.value.value.keywords[0].value) == step
-        R.check(ok, r_v, SWEEP, qn, "expr_outputs = {p: fn(**step) for p, fn in S._compiled_exprs.items()}", "expressions are not all evaluated on this step's variable values", loop.lineno)
-        d["exprs"] = _unify(eo) if eo is not None else ""
-        mc = next((n for n in loop.body if isinstance(n, ast.Assign) and isinstance(n.value, ast.Call) and call_attr(n.value) == "_merge_call_parameters"), None)
-        ok = mc is not None and dotted_name(kwarg(mc.value, "base_kwargs")) == "base_kwargs" and eo is not None and dotted_name(kwarg(mc.value, "expression_outputs")) == dotted_name(eo.targets[0])
-        R.check(ok, r_v, SWEEP, qn, "call_params = _merge_call_parameters(base_kwargs=base_kwargs, expression_outputs=expr_outputs)", "a variant merges provided and computed parameters differently", loop.lineno)
-        d["merge"] = _unify(mc) if mc is not None else ""
-        flt = next((n for n in loop.body if isinstance(n, ast.Assign) and isinstance(n.value, ast.DictComp) and "_allowed_names" in ast.unparse(n.value)), None)
-        ok = flt is not None and mc is not None and flt.lineno > mc.lineno and len(flt.value.generators[0].ifs) == 1 and ast.unparse(flt.value.generators[0].ifs[0]) == f"{flt.value.generators[0].target.elts[0].id} in {recv}._allowed_names"
+        d["iterate"] = _unify(loop.iter, f)
+        step = loop.target.id if isinstance(loop.target, ast.Name) else "__missing__"
+        eo = find1(loop, f"_E_ = {{_p_: _fn_(**{step}) for (_p_, _fn_) in {S}._compiled_exprs.items()}}")
+        R.check(eo is not None, r_v, SWEEP, qn, "expr_outputs = {p: fn(**step) for p, fn in S._compiled_exprs.items()}", "expressions are not all evaluated on this step's variable values", loop.lineno)
+        E = name_of(eo[1], "_E_") if eo else "__missing__"
+        d["exprs"] = _unify(eo[0] if eo else None, f)
+        mc = find1(loop, f"_C_ = _merge_call_parameters(base_kwargs={B}, expression_outputs={E})")
+        R.check(mc is not None, r_v, SWEEP, qn, "call_params = _merge_call_parameters(base_kwargs=base_kwargs, expression_outputs=expr_outputs)", "a variant merges provided and computed parameters differently", loop.lineno)
+        C = name_of(mc[1], "_C_") if mc else "__missing__"
+        d["merge"] = _unify(mc[0] if mc else None, f)
+        flt = find1(loop, f"_F_ = {{_k_: _v_ for (_k_, _v_) in {C}.items() if _k_ in {S}._allowed_names}}")
+        ok = flt is not None and mc is not None and flt[0].lineno > mc[0].lineno
         R.check(ok, r_v, SWEEP, qn, "call_params filtered to S._allowed_names", "parameters are not filtered to the element's signature (or filtered by something else)", loop.lineno)
-        d["filter"] = _unify(flt) if flt is not None else ""
+        Fv = name_of(flt[1], "_F_") if flt else "__missing__"
+        d["filter"] = _unify(flt[0] if flt else None, f)
         # element call once per step, appended in order
         apps = [c for c in calls_in(loop) if call_attr(c) == "append"]
         ok = len(apps) == 1 and not any(isinstance(x, (ast.If, ast.Continue, ast.Break)) for x in ast.walk(loop))
         el = apps[0].args[0] if apps else None
         el_ok = False
         if isinstance(el, ast.Call):
-            star = [k for k in el.keywords if k.arg is None]
-            el_ok = len(star) == 1 and flt is not None and dotted_name(star[0].value) == dotted_name(flt.targets[0])
             if f.name == "_get_data":
-                el_ok = el_ok and dotted_name(el.func) == "cls._element.get_data" and not el.args
+                el_ok = match(f"cls._element.get_data(**{Fv})", el) is not None
             else:
-                inst = el.func.value.id if isinstance(el.func, ast.Attribute) and isinstance(el.func.value, ast.Name) else None
-                idefs = [n for n in loop.body if isinstance(n, ast.Assign) and dotted_name(n.targets[0]) == inst]
-                el_ok = el_ok and el.func.attr == "process" and len(el.args) == 1 and dotted_name(el.args[0]) == f.args.args[1].arg and bool(idefs) and dotted_name(idefs[0].value.func) == "self._element"
+                data_p = f.args.args[1].arg
+                m = match(f"_I_.process({data_p}, **{Fv})", el)
+                if m:
+                    inst = name_of(m, "_I_")
+                    idefs = [n for n in loop.body if isinstance(n, ast.Assign) and dotted_name(n.targets[0]) == inst]
+                    el_ok = bool(idefs) and isinstance(idefs[0].value, ast.Call) and dotted_name(idefs[0].value.func) == "self._element"
         R.check(ok and el_ok, r_v, SWEEP, qn, "results.append(<element>(**call_params)) once per step", "the wrapped processor is not applied exactly once per step, in step order, to the input data with the merged parameters", loop.lineno)
-        # return value
         rets = [n for n in walk_no_nested(f) if isinstance(n, ast.Return)]
-        lst = dotted_name(apps[0].func.value) if apps else None
+        lst = dotted_name(apps[0].func.value) if apps else "__missing__"
         is_probe = "Probe" in qn
         if is_probe:
             ok = len(rets) == 1 and dotted_name(rets[0].value) == lst
             what = "a probe sweep does not return the plain list of results in order"
         else:
-            ok = len(rets) == 1 and isinstance(rets[0].value, ast.Call) and ast.unparse(rets[0].value.func) == f"{recv}._collection_output.from_list" and dotted_name(rets[0].value.args[0]) == lst
+            ok = len(rets) == 1 and match(f"{S}._collection_output.from_list({lst})", rets[0].value) is not None
             what = "the typed collection is not built from the results in step order"
         R.check(ok, r_v, SWEEP, qn, "return " + ("results" if is_probe else "S._collection_output.from_list(results)"), what, f.lineno)
         forms[qn] = d
@@ -197,87 +267,107 @@ def run(repo: Repo, R: Report) -> None:
     r_p = R.rule("C03-D4-publication", "every variant declares <var>_values for each variable, materialisation stores exactly those keys, each variant hands them to the run context (or leaves them for the node), and the probe node publishes and declares them", 9)
     create = repo.func(SWEEP, CREATE)
     gck = [n for n in ast.walk(create) if isinstance(n, FuncNode) and n.name == "get_created_keys"]
-    ok_n = 0
     for f in gck:
-        lcs = [x for x in ast.walk(f) if isinstance(x, ast.ListComp) and isinstance(x.elt, ast.JoinedStr)]
-        ok = bool(lcs) and ast.unparse(lcs[0].elt) == "f'{var}_values'" and ast.unparse(lcs[0].generators[0].iter) == "cls._vars"
-        ok_n += 1
+        ok = bool(find(f, "[f'{_v_}_values' for _v_ in cls._vars]"))
         R.check(ok, r_p, SWEEP, qualname_of(f), "declares [f'{var}_values' for var in cls._vars]", "declared created keys are not <var>_values for every sweep variable", f.lineno)
-    if ok_n != 3:
-        raise AnalysisError(f"{ok_n} get_created_keys templates in the sweep factory (3 confirmed by reading)")
+    if len(gck) != 3:
+        raise AnalysisError(f"{len(gck)} get_created_keys templates in the sweep factory (3 confirmed by reading)")
     ms = repo.func(SWEEP, "_materialize_sequences")
-    st = [n for n in ast.walk(ms) if isinstance(n, ast.Assign) and any(isinstance(t, ast.Subscript) and dotted_name(t.value) == "created" for t in n.targets)]
-    ok = len(st) == 1 and ast.unparse(st[0].targets[0].slice) == "f'{var}_values'" and not [a for a in ancestors(st[0]) if isinstance(a, ast.If)]
-    seqst = [n for n in ast.walk(ms) if isinstance(n, ast.Assign) and any(isinstance(t, ast.Subscript) and dotted_name(t.value) == "sequences" for t in n.targets)]
-    ok = ok and len(seqst) == 1 and dotted_name(seqst[0].value) == dotted_name(st[0].value) and ast.unparse(seqst[0].targets[0].slice) == "var"
+    rets = [n for n in walk_no_nested(ms) if isinstance(n, ast.Return) and isinstance(n.value, ast.Tuple) and len(n.value.elts) == 2]
+    if not rets:
+        raise AnalysisError("_materialize_sequences: (sequences, created) return not found")
+    SQ, CRV = dotted_name(rets[0].value.elts[0]), dotted_name(rets[0].value.elts[1])
+    vars_p = ms.args.kwonlyargs[0].arg if ms.args.kwonlyargs else "vars"
+    vloop = next((n for n in walk_no_nested(ms) if isinstance(n, ast.For) and match(f"{vars_p}.items()", n.iter) is not None), None)
+    var = vloop.target.elts[0].id if vloop is not None and isinstance(vloop.target, ast.Tuple) else "var"
+    spec = vloop.target.elts[1].id if vloop is not None and isinstance(vloop.target, ast.Tuple) else "spec"
+    st_c = find(ms, f"{CRV}[f'{{{var}}}_values'] = _X_", nested=False)
+    st_s = find(ms, f"{SQ}[{var}] = _X_")
+    ok = len(st_c) == 1 and len(st_s) == 1 and _u(st_c[0][1]["_X_"]) == _u(st_s[0][1]["_X_"]) and not [a for a in ancestors(st_c[0][0]) if isinstance(a, ast.If)]
     R.check(ok, r_p, SWEEP, "_materialize_sequences", "created[f'{var}_values'] = sequences[var] = seq_list for every variable", "the published sequence is not the one that is swept (or is missing for some variable kind)", ms.lineno)
     for qn, f in variants:
-        pubs = [c for c in calls_in(f) if call_attr(c) == "_publish_created_context"]
         loop = next(n for n in walk_no_nested(f) if isinstance(n, ast.For) and isinstance(n.iter, ast.Call) and call_attr(n.iter) == "_iterate_sweep")
-        ok = len(pubs) == 1 and dotted_name(pubs[0].args[0]) == "created" and pubs[0].lineno > loop.lineno and not [a for a in ancestors(pubs[0]) if isinstance(a, (ast.If, ast.Try)) and any(a2 is f for a2 in ancestors(a))]
+        mat = find1(f, "(_SEQ_, _CR_) = _materialize_sequences(vars=_ANY_, params=_ANY_)")
+        CR = name_of(mat[1], "_CR_") if mat else "created"
+        pubs = find(f, f"_publish_created_context({CR}, _CTX_)")
+        ok = len(pubs) == 1 and pubs[0][0].lineno > loop.lineno and not [a for a in ancestors(pubs[0][0]) if isinstance(a, (ast.If, ast.Try)) and any(a2 is f for a2 in ancestors(a))]
         if f.name == "_process_logic":
-            ok = ok and "self._last_created_sequences = created" in ast.unparse(f)
+            ok = ok and bool(find(f, f"self._last_created_sequences = {CR}"))
         R.check(ok, r_p, SWEEP, qn, "_publish_created_context(created, <context>) after the loop", "materialised sequences are not handed to the run context by this variant", f.lineno)
     pc = repo.func(SWEEP, "_publish_created_context")
-    src = ast.unparse(pc)
-    ok = "context.set_value(key, value)" in src and "created.items()" in src and not any(isinstance(n, ast.If) and "key" in {x.id for x in ast.walk(n.test) if isinstance(x, ast.Name)} for n in ast.walk(pc))
+    cp, xp = pc.args.args[0].arg, pc.args.args[1].arg
+    w = find(pc, f"for (_k_, _v_) in {cp}.items():\n    {xp}.set_value(_k_, _v_)")
+    ok = bool(w) and not any(isinstance(n, ast.If) for n in ast.walk(w[0][0]))
     R.check(ok, r_p, SWEEP, "_publish_created_context", "every created key is written with set_value", "some <var>_values keys are not written", pc.lineno)
     pn = repo.func(NODES, "_ProbeContextInjectorNode._process_single_item_with_context")
-    loops = [n for n in ast.walk(pn) if isinstance(n, ast.For) and ".items()" in ast.unparse(n.iter) and any(call_attr(c) == "update_context" for c in calls_in(n))]
-    ok = bool(loops) and any("_last_created_sequences" in ast.unparse(v) for v in assigned_value(pn, dotted_name(loops[0].iter.func.value) or ""))
+    ok = False
+    for lp in [n for n in ast.walk(pn) if isinstance(n, ast.For)]:
+        m = match("_D_.items()", lp.iter)
+        if m and any(call_attr(c) == "update_context" for c in calls_in(lp)):
+            ok = ok or any("_last_created_sequences" in _u(v) for v in _defs(pn, m["_D_"]))
     R.check(ok, r_p, NODES, "_ProbeContextInjectorNode._process_single_item_with_context", "publishes processor._last_created_sequences", "a swept probe declares <var>_values but the probe node never writes them into the context", pn.lineno)
     pk = repo.func(NODES, "_ProbeContextInjectorNode.get_created_keys")
-    ok = "cls.processor" in ast.unparse(pk) and "get_created_keys" in ast.unparse(pk) and "cls.context_key" in ast.unparse(pk)
+    ok = "cls.processor" in _u(pk) and "get_created_keys" in _u(pk) and "cls.context_key" in _u(pk)
     R.check(ok, r_p, NODES, "_ProbeContextInjectorNode.get_created_keys", "context_key + processor's created keys", "the probe node does not declare the keys its swept processor creates", pk.lineno)
     for qn in ("_DataNode._process_single_item_with_context", "_DataOperationContextInjectorProbeNode._process_single_item_with_context"):
         f = repo.func(NODES, qn)
-        ok = "setattr(self.processor, 'observer_context', context)" in ast.unparse(f)
+        ok = bool(find(f, "setattr(self.processor, 'observer_context', _C_)")) or bool(find(f, "self.processor.observer_context = _C_"))
         R.check(ok, r_p, NODES, qn, "processor.observer_context = context before process()", "the swept processor has no context to publish <var>_values into", f.lineno)
 
     # ------------------------------------------------------------------ D5
     r_y = R.rule("C03-D5-yaml-conversion", "YAML variable specs map to the documented spec classes and defaults: [a, b] of two numbers -> range with 10 steps; other lists and {values} -> sequence as given; {lo, hi, steps[, scale=linear][, endpoint=True]} -> range; {from_context: key}", 6)
     cv = repo.func(PREP, "_convert_var_specs")
+    vl = next((n for n in walk_no_nested(cv) if isinstance(n, ast.For) and isinstance(n.target, ast.Tuple)), None)
+    sp = vl.target.elts[1].id if vl is not None else "spec"
     rs = [c for c in ast.walk(cv) if isinstance(c, ast.Call) and call_attr(c) == "RangeSpec"]
-    two = [c for c in rs if isinstance(kwarg(c, "steps"), ast.Constant)]
-    ok = len(two) == 1 and kwarg(two[0], "steps").value == 10 and _u(kwarg(two[0], "lo")) == "float(spec[0])" and _u(kwarg(two[0], "hi")) == "float(spec[1])" and kwarg(two[0], "scale") is None and kwarg(two[0], "endpoint") is None
-    R.check(ok, r_y, PREP, "_convert_var_specs", "[a, b] -> RangeSpec(lo=a, hi=b, steps=10)", "the two-number shorthand is not a 10-step linear range from a to b", cv.lineno)
-    full = [c for c in rs if c not in two]
-    ok = len(full) == 1
-    if ok:
-        c = full[0]
-        ok = (_u(kwarg(c, "lo")) == "float(spec['lo'])" and _u(kwarg(c, "hi")) == "float(spec['hi'])" and _u(kwarg(c, "steps")) == "int(spec['steps'])"
-              and _u(kwarg(c, "scale")) == "spec.get('scale', 'linear')" and _u(kwarg(c, "endpoint")) == "spec.get('endpoint', True)")
-    R.check(ok, r_y, PREP, "_convert_var_specs", "{lo, hi, steps, scale='linear', endpoint=True} -> RangeSpec field by field", "range fields are swapped or documented defaults changed", cv.lineno)
+    two = [c for c in rs if match(f"RangeSpec(lo=float({sp}[0]), hi=float({sp}[1]), steps=10)", c)]
+    R.check(len(two) == 1, r_y, PREP, "_convert_var_specs", "[a, b] -> RangeSpec(lo=a, hi=b, steps=10)", "the two-number shorthand is not a 10-step linear range from a to b", cv.lineno)
+    full = [c for c in rs if match(f"RangeSpec(lo=float({sp}['lo']), hi=float({sp}['hi']), steps=int({sp}['steps']), scale={sp}.get('scale', 'linear'), endpoint={sp}.get('endpoint', True))", c)]
+    R.check(len(full) == 1 and len(rs) == 2, r_y, PREP, "_convert_var_specs", "{lo, hi, steps, scale='linear', endpoint=True} -> RangeSpec field by field", "range fields are swapped or documented defaults changed", cv.lineno)
     ss = [c for c in ast.walk(cv) if isinstance(c, ast.Call) and call_attr(c) == "SequenceSpec"]
-    ok = len(ss) == 2 and {ast.unparse(c.args[0]) for c in ss} == {"spec", "spec['values']"}
+    ok = len(ss) == 2 and {_u(c.args[0]) for c in ss if c.args} == {sp, f"{sp}['values']"}
     R.check(ok, r_y, PREP, "_convert_var_specs", "lists / {values} -> SequenceSpec(values as given)", "explicit sequences are transformed (sorted, deduplicated, ...)", cv.lineno)
     fc = [c for c in ast.walk(cv) if isinstance(c, ast.Call) and call_attr(c) == "FromContext"]
-    ok = len(fc) == 1 and any("spec['from_context']" in ast.unparse(v) for v in assigned_value(cv, dotted_name(fc[0].args[0]) or ""))
+    ok = len(fc) == 1 and bool(fc[0].args) and any(f"{sp}['from_context']" in _u(v) for v in _defs(cv, fc[0].args[0]))
     R.check(ok, r_y, PREP, "_convert_var_specs", "{from_context: key} -> FromContext(key)", "from_context variables do not read the declared key", cv.lineno)
     pnc = repo.func(PREP, "preprocess_node_config")
     cc = next((c for c in calls_in(pnc) if call_name(c) == "ParametricSweepFactory.create"), None)
-    ok = cc is not None and dotted_name(kwarg(cc, "vars")) == "processed_vars" and dotted_name(kwarg(cc, "parametric_expressions")) == "params_spec" and dotted_name(kwarg(cc, "broadcast")) == "broadcast" and "mode" in _u(kwarg(cc, "mode")) and dotted_name(kwarg(cc, "collection_output")) == "collection_cls" and dotted_name(kwarg(cc, "element")) == "element_cls"
-    R.check(ok, r_y, PREP, "preprocess_node_config", "create(element, kind, collection, vars, expressions, mode, broadcast) from the block's fields", "a field of the derive.parameter_sweep block is not passed on to the factory as declared", pnc.lineno)
-    md = [v for v in assigned_value(pnc, "mode")] + [v for v in assigned_value(pnc, "broadcast")]
-    ok = any("'combinatorial'" in ast.unparse(v) for v in md) and any(ast.unparse(v) == "sweep_cfg.get('broadcast', False)" for v in md)
-    R.check(ok, r_y, PREP, "preprocess_node_config", "defaults: mode=combinatorial, broadcast=False", "documented defaults of mode / broadcast changed", pnc.lineno)
+
+    def from_call(e: Optional[ast.AST], needle: str) -> bool:
+        if e is None:
+            return False
+        if needle in _u(e):
+            return True
+        return any(needle in _u(v) for x in ast.walk(e) if isinstance(x, ast.Name) for v in assigned_value(pnc, x.id))
+
+    ok = cc is not None
+    if ok:
+        ok = (from_call(kwarg(cc, "vars"), "_convert_var_specs(") and from_call(kwarg(cc, "parametric_expressions"), ".get('parameters'")
+              and from_call(kwarg(cc, "broadcast"), ".get('broadcast', False)") and from_call(kwarg(cc, "mode"), ".get('mode', 'combinatorial')")
+              and kwarg(cc, "collection_output") is not None and kwarg(cc, "element") is not None and kwarg(cc, "element_kind") is not None)
+    R.check(ok, r_y, PREP, "preprocess_node_config", "create(element, kind, collection, vars, expressions, mode='combinatorial', broadcast=False) from the block's fields", "a field of the derive.parameter_sweep block is not passed on to the factory as declared (or a documented default changed)", pnc.lineno)
+    cvc = next((c for c in calls_in(pnc) if call_attr(c) == "_convert_var_specs"), None)
+    ok = cvc is not None and bool(cvc.args) and from_call(cvc.args[0], ".get('variables')")
+    R.check(ok, r_y, PREP, "preprocess_node_config", "variables converted from the block's `variables` mapping", "sweep variables are not taken from derive.parameter_sweep.variables", pnc.lineno)
 
     # ------------------------------------------------------------------ D6
     r_mat = R.rule("C03-D6-materialisation-arguments", "linspace/logspace receive lo, hi, steps, endpoint in their roles; explicit sequences are taken as given; from_context reads params[key] behind the missing / non-sequence / empty guards", 5)
     lin = [c for c in calls_in(ms) if call_name(c) == "np.linspace"]
-    ok = len(lin) == 1 and [ast.unparse(a) for a in lin[0].args] == ["spec.lo", "spec.hi", "spec.steps"] and _u(kwarg(lin[0], "endpoint")) == "spec.endpoint"
+    ok = len(lin) == 1 and match(f"np.linspace({spec}.lo, {spec}.hi, {spec}.steps, endpoint={spec}.endpoint)", lin[0]) is not None
     R.check(ok, r_mat, SWEEP, "_materialize_sequences", "np.linspace(spec.lo, spec.hi, spec.steps, endpoint=spec.endpoint)", "a linear range is not built from (lo, hi, steps, endpoint) in their roles", ms.lineno)
     logs = [c for c in calls_in(ms) if call_name(c) == "np.logspace"]
-    ok = len(logs) == 2 and all(ast.unparse(c.args[0]) == "np.log10(spec.lo)" and ast.unparse(c.args[2]) == "spec.steps" for c in logs) and any(ast.unparse(c.args[1]) == "np.log10(spec.hi)" for c in logs)
+    ok = len(logs) == 2 and all(match(f"np.logspace(np.log10({spec}.lo), _H_, {spec}.steps)", c) for c in logs) and any(match(f"np.logspace(np.log10({spec}.lo), np.log10({spec}.hi), {spec}.steps)", c) for c in logs)
     R.check(ok, r_mat, SWEEP, "_materialize_sequences", "np.logspace(log10(lo), log10(hi | adjusted), steps)", "a log range is not built from log10(lo), log10(hi), steps", ms.lineno)
-    ok = any(isinstance(n, ast.Assign) and ast.unparse(n.value) == "list(spec.values)" for n in ast.walk(ms))
+    ok = bool(find(ms, f"_X_ = list({spec}.values)"))
     R.check(ok, r_mat, SWEEP, "_materialize_sequences", "seq_list = list(spec.values)", "explicit sequences are reordered / deduplicated", ms.lineno)
-    fcb = next((n for n in ast.walk(ms) if isinstance(n, ast.If) and "FromContext" in ast.unparse(n.test)), None)
+    params_p = ms.args.kwonlyargs[1].arg if len(ms.args.kwonlyargs) > 1 else "params"
+    fcb = next((n for n in ast.walk(ms) if isinstance(n, ast.If) and "FromContext" in _u(n.test)), None)
     ok = fcb is not None
     if ok:
         raises = [n for n in ast.walk(fcb) if isinstance(n, ast.If) and n is not fcb and isinstance(n.body[-1], ast.Raise)]
-        tests = " | ".join(ast.unparse(r.test) for r in raises)
-        ok = "spec.key not in params" in tests and "isinstance(value, (str, bytes))" in tests and "not seq_list" in tests and "params[spec.key]" in ast.unparse(fcb)
+        tests = " | ".join(_u(r.test) for r in raises)
+        rd = find1(fcb, f"_V_ = {params_p}[{spec}.key]")
+        ok = f"{spec}.key not in {params_p}" in tests and rd is not None and f"isinstance({name_of(rd[1], '_V_')}, (str, bytes))" in tests and any(isinstance(r.test, ast.UnaryOp) and isinstance(r.test.op, ast.Not) and isinstance(r.test.operand, ast.Name) for r in raises)
     R.check(ok, r_mat, SWEEP, "_materialize_sequences", "from_context: params[spec.key] with missing / non-sequence / empty guards", "a from_context variable is read without its guards (or from another key)", ms.lineno)
-    ok = any(isinstance(n, ast.If) and ast.unparse(n.test) == "spec.scale == 'linear'" for n in ast.walk(ms)) and any(isinstance(n, ast.If) and ast.unparse(n.test) == "spec.endpoint" for n in ast.walk(ms))
+    ok = any(isinstance(n, ast.If) and match(f"{spec}.scale == 'linear'", n.test) for n in ast.walk(ms)) and any(isinstance(n, ast.If) and match(f"{spec}.endpoint", n.test) for n in ast.walk(ms))
     R.check(ok, r_mat, SWEEP, "_materialize_sequences", "branches on spec.scale and spec.endpoint", "scale / endpoint no longer select the materialisation", ms.lineno)
